@@ -1,4 +1,5 @@
 import KaVerif.Lemmas.ParserLemmas
+import KaVerif.Lemmas.ParserWFLemmas
 /-
   C02 — expressions group exactly as the documented precedence and associativity.
 
@@ -110,6 +111,42 @@ theorem C02_kwarg (f k : String) (a v : Ast) (ha : wfE a = true) (hv : wfE v = t
     simp [rNat, rStmtTail, rTail, rKwTail, wrap, startsAsg]
   simp only [renderMin, renderWith, e1, e2, e3] at h1 h2 h3
   exact ⟨h1, h2, h3⟩
+
+/-- **Keyword arguments only after the positional ones.**  `f(k: v, a)` — a positional argument
+    after a keyword argument — is rejected with a ParsingError (once `parse_positional_args` has
+    stopped at `identifier :` every remaining argument must be `name : value`). -/
+theorem C02_kwarg_before_positional_rejected (f k : String) (a v : Ast) (ha : wfE a = true) (hv : wfE v = true) :
+    ∃ i, parse (toTokens (.var f :: .p .lpar :: .var k :: .p .colon ::
+        (rAt noExtra 0 v ++ .p .comma :: (rAt noExtra 0 a ++ [.p .rpar])))) = .error (.parsing i) := by
+  obtain ⟨j, hj⟩ := kwarg_before_positional f k ha hv
+  refine ⟨(toTokens (.var f :: .p .lpar :: .var k :: .p .colon ::
+        (rAt noExtra 0 v ++ .p .comma :: (rAt noExtra 0 a ++ [.p .rpar])))).length - j, ?_⟩
+  unfold parse
+  simp only [toTokens, map_ofToken_toToken, hj]
+
+/-- **`Ast.WF` is exactly the set of trees the grammar produces**: a tree is well-formed iff it is
+    the parse of some token list (⇒ by the round trip, ⇐ by induction over the parser). -/
+theorem C02_wf_iff_parsed (t : Ast) : t.WF ↔ ∃ tokens, parse tokens = .ok t :=
+  ⟨fun h => ⟨renderMin t, (C02_roundtrip t h).1⟩, fun ⟨_, h⟩ => parse_wf h⟩
+
+/-- **`=` elsewhere is a comparison.**  Whatever the tokens, a successful parse is a STATEMENTS node
+    whose children are assignments `x = e` or expressions, where `e` and the expressions satisfy
+    `wfE` — and `wfE` holds for no tree containing an ASSIGNMENT node (it is `false` on `.assign`
+    and hereditary).  So an ASSIGNMENT node only ever arises from `identifier =` at the start of a
+    statement; every other `=` token ends up as (part of) the label of a comparison node. -/
+theorem C02_assign_only_at_statement_start (tokens : List Token) (t : Ast) (h : parse tokens = .ok t) :
+    ∃ ss, t = .stmts ss ∧ ∀ s ∈ ss, (∃ x e, s = .assign x e ∧ wfE e = true) ∨ wfE s = true := by
+  have hwf := parse_wf h
+  cases t with
+  | stmts ss =>
+    refine ⟨ss, rfl, ?_⟩
+    intro s hs
+    have := hwf s hs
+    cases s with
+    | assign x e => exact Or.inl ⟨x, e, rfl, by simpa [wfS] using this⟩
+    | stmts _ => simp [wfS, wfE] at this
+    | _ => exact Or.inr (by simpa [wfS] using this)
+  | _ => exact absurd hwf (by simp [Ast.WF])
 
 /-! ### non-vacuity -/
 
